@@ -1214,7 +1214,7 @@ Fixpoint hyp_mismatches_from (i : N) (ks : list (lcase * bool)) : list N :=
   match ks with
   | [] => []
   | (k, clean) :: rest =>
-      (if negb clean || check_hyp k then [] else [i]) ++ hyp_mismatches_from (i + 1) rest
+      (if (if clean then check_hyp k else true) then [] else [i]) ++ hyp_mismatches_from (i + 1) rest
   end.
 
 Definition hyp_mismatches (ks : list (lcase * bool)) : list N := hyp_mismatches_from 0 ks.
